@@ -4,20 +4,7 @@ import os
 
 ROOT = os.path.dirname(os.path.dirname(os.path.abspath(__file__)))
 
-CLAIMED = {
-    'C14': dict(
-        text=('Machine-checked proof (Coq 8.16.1) that an arm-by-arm model of LazyBigint and of the integer builtins '
-              '(add sub mul neg abs sign mod div_floor div_ceil trunc-div rem pow and/or/xor cmp eq hash gcd lcm binom '
-              'digits factorial) preserves the canonical form, never gets stuck and denotes the exact operation on Z for '
-              'operands of every magnitude; the hand-written model is tied to /repo on every run by a differential '
-              'correspondence check over boundary operands and computation routes.'),
-        note=('Trusted: Coq kernel; num-bigint modelled by Z; the model is hand-written and tied to the code by sampled '
-              'differential testing (debug build with overflow checks; thorough adds release + coqchk). Theorems are '
-              'closed under the global context (no axioms). multinom/permutation/combination and float conversion are '
-              'outside the model.'),
-        technique='Coq proof of a refinement LazyBigint -> Z + model/implementation correspondence check',
-        design='5 C14'),
-}
+CLAIMED = json.load(open(os.path.join(ROOT, 'lib', 'claims.json')))
 
 NOT_YET = {}
 
